@@ -34,7 +34,8 @@ type ConfModel struct {
 	TktEtypes      []string            `json:"tkt_etypes,omitempty"` // names as in krb5.conf
 	TGSEtypes      []string            `json:"tgs_etypes,omitempty"`
 	PreauthTypes   []int               `json:"preauth_types,omitempty"`
-	EtypeSep       string              `json:"etype_sep,omitempty"` // separator of the etype lists: "" = one space; krb5.conf also allows commas
+	SplitRealms    string              `json:"split_realms,omitempty"` // "" | block | section: a realm with several KDCs is configured in two blocks of the same name (in one or in two [realms] sections)
+	EtypeSep       string              `json:"etype_sep,omitempty"`    // separator of the etype lists: "" = one space; krb5.conf also allows commas
 	Forwardable    bool                `json:"forwardable,omitempty"`
 	Proxiable      bool                `json:"proxiable,omitempty"`
 	Canonicalize   bool                `json:"canonicalize,omitempty"`
@@ -100,8 +101,19 @@ func (m ConfModel) Render() string {
 	}
 	sort.Strings(rs)
 	for _, r := range rs {
+		kdcs := m.Realms[r]
+		if m.SplitRealms != "" && len(kdcs) > 1 {
+			// the realm's servers come in two blocks (an appended or included site snippet): the
+			// first KDC here, the others in a second block of the same name, in the same or in a
+			// second [realms] section
+			fmt.Fprintf(&b, "  %s = {\n    kdc = %s\n  }\n", r, kdcs[0])
+			kdcs = kdcs[1:]
+			if m.SplitRealms == "section" {
+				b.WriteString("\n[realms]\n")
+			}
+		}
 		fmt.Fprintf(&b, "  %s = {\n", r)
-		for _, k := range m.Realms[r] {
+		for _, k := range kdcs {
 			fmt.Fprintf(&b, "    kdc = %s\n", k)
 		}
 		for _, k := range m.KPasswd[r] {
